@@ -59,6 +59,8 @@ def run(tier, replay=None):
     chk = C.Check(PROP, tier, MODULE, THEOREMS, RULE, assumptions=[
         "float64 evaluation of the formula (rounding in log / products) is compared at rel 1e-9, not proved",
         "a zero-probability read with count 0 gives NaN in the code (-inf * 0); not generated for the assemble/calling path where counts are >= 1",
+        "float64 underflow of a single read x haplotype product (more than ~300 decimal orders, e.g. > 75 SNVs all mismatching at Q40) makes the "
+        "code return -inf where the exact value is finite; such inputs are outside the compared domain (observed, recorded in DESIGN.md)",
     ])
     chk.prove()
     drv = C.Driver()
@@ -66,6 +68,27 @@ def run(tier, replay=None):
     n_cases = {"warm": 5, "quick": 400, "thorough": 4000}[tier]
 
     cases = []
+    # long loci: many SNVs, confident reads far from the genotype (tiny but representable likelihoods)
+    for i in range({"warm": 1, "quick": 30, "thorough": 300}[tier]):
+        ploidy = r.choice([2, 4, 6])
+        e = r.choice([1e-3, 1e-4])
+        # keep a single read x haplotype product above float64 underflow (1e-308): that limit of the
+        # implementation is runtime floating-point behaviour, outside the compared domain
+        n_base = r.choice([40, 60, 70] if e < 5e-4 else [40, 60, 80, 95])
+        n_alleles = [2] * n_base
+        g = G.gen_genotype(r, ploidy, n_alleles, dup=0.3)
+        far = [[1 - a for a in g[0]]]          # complementary haplotype: mismatches everywhere
+        n_reads = r.randint(2, 6)
+        reads, counts = G.gen_reads(r, n_alleles, n_reads, haps=far if r.random() < 0.7 else g, gap=r.choice([0.0, 0.3]), style="encoded", max_count=2)
+        # make them confident (Q30..Q40) and mostly of count 1
+        mask = ~np.isnan(reads)
+        reads[mask & (reads > 0.5)] = 1 - e
+        reads[mask & (reads <= 0.5)] = e
+        if r.random() < 0.7:
+            counts[:] = 1
+        idx = list(range(ploidy)); r.shuffle(idx)
+        lo = r.randint(0, n_base); hi = r.randint(lo, n_base)
+        cases.append((ploidy, n_base, n_alleles, g, reads, counts, idx, lo, hi))
     for i in range(n_cases):
         boundary = r.random() < 0.12
         ploidy = r.choice([1, 2, 2, 3, 4, 4, 6, 8])
